@@ -638,6 +638,89 @@ fn bomb(depth: usize) -> Vec<u8> {
     b
 }
 
+/// arrays of fixed-size elements that are COMPLETELY present, at the 64 MiB boundary: exactly 64 MiB is a valid
+/// array and must be accepted, one element more must be refused although every byte is there. The model answers
+/// from the lengths (`c18.fullarr`, theorem `decode_boundary`); the Param unmarshaller (80 bytes per element) is
+/// exercised with 64 strings of 1 MiB instead (direct check).
+fn run_dec_full(out: &mut Out, _cfg: &Cfg) {
+    fn one(out: &mut Out, req: &str, name: &str, input: usize, f: impl FnOnce() -> bool) {
+        let (r, m) = meter(|| guard(f));
+        match r {
+            Ok(true) => out.case(req, "ok", true),
+            Ok(false) => out.case(req, "reject", true),
+            Err(p) => {
+                out.violation(req, &format!("panic: {}", p));
+                out.case(req, "panic", true)
+            }
+        }
+        out.hit(&format!("dec.full.{}", name));
+        let bound = ALLOC_PER_BYTE * input + DEC_SLACK;
+        if m.peak_extra > bound {
+            out.violation(req, &format!("{}: {} bytes of input made the decoder hold {} bytes (bound {})", name, input, m.peak_extra, bound));
+        }
+    }
+    let mut buf = vec![0u8; ARR_MAX + 64];
+    let ty_ay = signature::Type::parse_description("ay").unwrap().remove(0);
+    let ty_at = signature::Type::parse_description("at").unwrap().remove(0);
+    for bo in ORDERS {
+        for n in [ARR_MAX - 1, ARR_MAX, ARR_MAX + 1] {
+            buf[..4].copy_from_slice(&u32b(bo, n as u32));
+            let b = &buf[..4 + n];
+            out.hit(&format!("dec.full.ay.{}.{}", pos_name(n, ARR_MAX), bo_name(bo)));
+            one(out, &format!("c18.fullarr 1 {} {}:validate", n, bo_name(bo)), "validate_ay", b.len(), || validate_marshalled(bo, 0, b, &ty_ay) == Ok(4 + n));
+            one(out, &format!("c18.fullarr 1 {} {}:slice_u8", n, bo_name(bo)), "slice_u8", b.len(), || typed_ok::<&[u8]>(bo, b));
+            one(out, &format!("c18.fullarr 1 {} {}:cow_u8", n, bo_name(bo)), "cow_u8", b.len(), || typed_ok::<Cow<[u8]>>(bo, b));
+            one(out, &format!("c18.fullarr 1 {} {}:vec_u8", n, bo_name(bo)), "vec_u8", b.len(), || typed_ok::<Vec<u8>>(bo, b));
+        }
+        for cnt in [ARR_MAX / 8 - 1, ARR_MAX / 8, ARR_MAX / 8 + 1] {
+            buf[..4].copy_from_slice(&u32b(bo, (cnt * 8) as u32));
+            buf[4..8].copy_from_slice(&[0; 4]);
+            let b = &buf[..8 + cnt * 8];
+            out.hit(&format!("dec.full.at.{}.{}", pos_name(cnt * 8, ARR_MAX), bo_name(bo)));
+            one(out, &format!("c18.fullarr 8 {} {}:validate", cnt, bo_name(bo)), "validate_at", b.len(), || validate_marshalled(bo, 0, b, &ty_at) == Ok(8 + cnt * 8));
+            one(out, &format!("c18.fullarr 8 {} {}:cow_u64", cnt, bo_name(bo)), "cow_u64", b.len(), || typed_ok::<Cow<[u64]>>(bo, b));
+            one(out, &format!("c18.fullarr 8 {} {}:vec_u64", cnt, bo_name(bo)), "vec_u64", b.len(), || typed_ok::<Vec<u64>>(bo, b));
+        }
+        buf[..8].copy_from_slice(&[0; 8]);
+    }
+    drop(buf);
+    // `as`: 64 strings; each occupies 4 + len + 1 bytes with len = 3 mod 4 (no padding): 64 * 2^20 = 64 MiB exactly,
+    // and one string 4 bytes longer: 64 MiB + 4
+    let ty_as = signature::Type::parse_description("as").unwrap().remove(0);
+    for bo in ORDERS {
+        for extra in [0usize, 4] {
+            let mut b: Vec<u8> = Vec::with_capacity(ARR_MAX + 16);
+            b.extend_from_slice(&u32b(bo, (ARR_MAX + extra) as u32));
+            for i in 0..64 {
+                let len = MIB - 5 + if i == 0 { extra } else { 0 };
+                b.extend_from_slice(&u32b(bo, len as u32));
+                b.resize(b.len() + len, b'a');
+                b.push(0);
+            }
+            let region = b.len() - 4;
+            let req = format!("c18.fullas {} {}", region, bo_name(bo));
+            let expect = region <= ARR_MAX;
+            for (name, r) in [
+                ("validate", guard(|| validate_marshalled(bo, 0, &b, &ty_as).is_ok())),
+                ("param", guard(|| {
+                    let mut ctx = UnmarshalContext::new(&[], bo, &b, 0);
+                    rustbus::wire::unmarshal::container::unmarshal_with_sig(&ty_as, &mut ctx).is_ok()
+                })),
+                ("vec_str", guard(|| typed_ok::<Vec<&str>>(bo, &b))),
+                ("vec_string", guard(|| typed_ok::<Vec<String>>(bo, &b))),
+            ] {
+                out.hit(&format!("dec.full.as.{}.{}", name, pos_name(region, ARR_MAX)));
+                match r {
+                    Ok(x) if x == expect => {}
+                    Ok(true) => out.violation(&req, &format!("{} accepted an array of strings with an element region of {} bytes (> 64 MiB)", name, region)),
+                    Ok(false) => out.violation(&req, &format!("{} rejected a valid array of strings whose element region is exactly 64 MiB (limit over-tight)", name)),
+                    Err(p) => out.violation(&req, &format!("{} panicked: {}", name, p)),
+                }
+            }
+        }
+    }
+}
+
 fn run_dec_depth(out: &mut Out, cfg: &Cfg) {
     // variant bombs: depth 64 is the deepest accepted
     let depths: &[usize] = if cfg.thorough { &[1, 2, 3, 31, 32, 33, 62, 63, 64, 65, 66, 67, 100, 128, 1000, 5000] } else { &[1, 2, 63, 64, 65, 66, 1000] };
@@ -1081,6 +1164,7 @@ pub fn run(cfg: &Cfg) {
     let mut out = Out::new(&cfg.outdir);
     run_dec_lengths(&mut out, cfg);
     run_dec_legit(&mut out, cfg);
+    run_dec_full(&mut out, cfg);
     run_dec_depth(&mut out, cfg);
     run_recv(&mut out, cfg);
     run_chunks(&mut out, cfg);
@@ -1102,7 +1186,7 @@ pub fn run(cfg: &Cfg) {
          struct, in a variant, as inner and as outer array, followed by 0/3/8/100 bytes, through validate_marshalled, the \
          Param unmarshaller and every typed decoder of that signature; variant bombs of depth 1,2,63..66,1000, signature \
          nesting 31/32/33 arrays and structs, arrays-then-bomb totals 63..65, the 64-level signature with and without a \
-         variant inside; a 10^5 deep bomb on a 2 MiB stack; direct: peak live allocation <= 176*(input+signature)+64KiB (a Param is 80 bytes, Vec growth doubles), <= 65 nodes \
+         variant inside; a 10^5 deep bomb on a 2 MiB stack; completely present ay / at arrays of 2^26-1, 2^26, 2^26+1 bytes (2^23-1..2^23+1 u64) through validate and the typed decoders, `as` with an element region of 2^26 / 2^26+4 through all decoders; direct: peak live allocation <= 176*(input+signature)+64KiB (a Param is 80 bytes, Vec growth doubles), <= 65 nodes \
          per input byte, no panic. \
          SEND: &[u8] of 2^26-1, 2^26, 2^26+1 bytes on its own / in a struct / in a variant / as dict value (dict region \
          12+n at 2^26-1..2^26+1), &[u64] fast path and element-wise path, Param-API arrays and dicts at the boundary; \
